@@ -753,7 +753,9 @@ def _unbind(t, dim=0):
     d = norm_dim(dim, t.rank)
     n = t.shape[d]
     if not isinstance(n, int):
-        raise Unsupported("unbind along symbolic dim")
+        # a tuple of symbolic length: only iterated / indexed by position, which the tensor with that dim moved to the front
+        # supports with the same meaning (for a in x.unbind(1)  ==  for a in x.transpose(0, 1) for a 2-D x)
+        return ops.permute(t, [d] + [k for k in range(t.rank) if k != d]) if d != 0 else t
     out = []
     for k in range(n):
         idx = [slice(None)] * t.rank
@@ -835,22 +837,26 @@ def _multinomial(ps, num_samples, replacement=False, **kw):
 
     if ps.rank != 2 or not isinstance(num_samples, int):
         raise Unsupported("multinomial: only [B, N] weights and a concrete number of samples")
-    if not isinstance(replacement, bool):
-        raise Unsupported("multinomial: symbolic replacement flag")
+    if isinstance(replacement, SymTensor):
+        replacement = replacement.at() if replacement.rank == 0 else replacement
+    if not isinstance(replacement, bool) and not is_z3(replacement):
+        raise Unsupported("multinomial: replacement flag")
+    repl = replacement if isinstance(replacement, bool) else zbool(replacement)        # may be a symbolic truth value
     B, N = ps.shape
     n = num_samples
     pos = ops.to_dtype(binop("gt", ps, 0), "i")
     cnt = reduce("sum", pos, 1)
     cs = cnt.snap()
-    ops.wf_forall((B,), lambda I: zint(cs(I)) >= (1 if replacement else n), "multinomial-enough-support")
+    need = (1 if repl else n) if isinstance(repl, bool) else z3.If(repl, 1, n)
+    ops.wf_forall((B,), lambda I: zint(cs(I)) >= need, "multinomial-enough-support")
     _RAND[0] += 1
     sel = input_tensor(f"multinomial{_RAND[0]}", (B, n), "i")
     ss, pp = sel.snap(), ps.snap()
     ops.assume_forall((B, n), lambda I: z3.And(ss(I) >= 0, ss(I) < zint(N), pp((I[0], ss(I))) > 0))
-    if not replacement:
+    if repl is not True:
         for a in range(n):
             for c in range(a + 1, n):
-                ops.assume_forall((B,), lambda I, a=a, c=c: ss((I[0], a)) != ss((I[0], c)))
+                ops.assume_forall((B,), lambda I, a=a, c=c: (ss((I[0], a)) != ss((I[0], c))) if repl is False else z3.Or(repl, ss((I[0], a)) != ss((I[0], c))))
     cur().notes.append("assumed contract of torch.multinomial: indices of positive weight, pairwise distinct without replacement; support size is a WF obligation")
     return sel
 
